@@ -14,7 +14,7 @@ def gen_cases(run, thorough):
     cases, dist = [], {}
     for ops in loggen.CORPUS_C19:
         cases.append([QMAX, TMAX, ops]); dist['corpus'] = dist.get('corpus', 0) + 1
-    n = 6000 if thorough else 700
+    n = 6000 if thorough else 300
     for k in range(n):
         ops, tags = loggen.gen_shaped_seq(r, r.range(2, 9), pl, allow_prev0=(k % 3 != 0))
         cases.append([QMAX, TMAX, ops])
@@ -52,13 +52,12 @@ def check(run):
                                    'why': 'the real BufferedRaftLog panicked on a Raft-shaped op sequence: ' + o[:200]})
                 continue
             pairs.append((c, o))
-        # property oracle on the implementation: the spec (plain log) must give the same answers
-        bad = core.coq_index_list(IMPORTS, '', 'spec_agrees', pairs, mode='failing', tag='C19spec')
+        # one Coq pass: (a) property oracle on the implementation = the spec (plain log) must give the same
+        # answers; (b) correspondence = the model as coded must reproduce the implementation exactly
+        bad, mism = core.coq_multi(IMPORTS, '', [('failing', 'spec_agrees'), ('mismatches', 'run_ops')], pairs, tag='C19')
         for i in bad[:3]:
             violations.append({'class': 'answers-differ-from-plain-log', 'probe': 'buflog', 'input': pairs[i][0], 'output': pairs[i][1],
                                'why': 'on a Raft-shaped op sequence the real BufferedRaftLog answers differ from the plain log DE.PLog'})
-        # correspondence: the model as coded must reproduce the implementation exactly
-        mism = core.coq_index_list(IMPORTS, '', 'run_ops', pairs, tag='C19model')
         if mism:
             i = mism[0]
             broken.append(('correspondence', 'DE.BufLog.run_ops vs BufferedRaftLog (probe buflog)',
